@@ -1,5 +1,6 @@
 import CpModel.Proto
 import CpModel.Cache
+import CpModel.CacheConc
 /-!
   Driver for C15 (caching tool).  One history per line, space-separated fields:
 
@@ -13,7 +14,20 @@ import CpModel.Cache
         iterator raises, bit4 = client abandons the (streamed) body.
 
   Output: one token per op (`H<gen>.<age>` hit, `M<gen>.<cacheable>` handler ran, `E400`, `-` for
-  T / S) followed by `|cur=<cursize> vals=<stored responses> uris=<len(store)>`.
+  T / S) followed by `|cur=<cursize> vals=<stored responses> uris=<len(store)>`, followed by
+  ` seq=ok` when the interleaving model (`CpModel.CacheConc`) run under the sequential schedule
+  (every request alone, every sweep a whole pass) gives the same tokens and totals, else
+  ` seq=DIFF:<its line>`.
+
+  Interleaving scenario (`CpModel.CacheConc`), one per line:
+
+    K:<delay>:<maxobjects>:<maxobj_size>:<maxsize>:<waits 0|1>     first field
+    N:<method>:<path>:<qs>:<hdrs>:<pragma>:<cc>:<vary>:<size>:<flags>   spawn a request thread
+    t<j> / w<j>      thread j performs its pending shared access (w: the Event.wait times out)
+    x                the expiry thread performs its pending shared access
+    T<n>             clock advances by n ticks
+
+  Output: one snapshot of the whole shared state per act (see `snap`), space separated.
 -/
 open CpModel CpModel.Cache
 
@@ -63,14 +77,123 @@ def runAll (cfg : Cfg) : World → List Op → List String → World × List Str
   | w, [], acc => (w, acc.reverse)
   | w, op :: ops, acc => runAll cfg (step cfg w op).1 ops (showOut (step cfg w op).2 :: acc)
 
+/-! ### the interleaving model -/
+section conc
+open CpModel.CacheConc
+
+def hexStr (s : Str) : String := Proto.hex (s.map fun c => UInt8.ofNat c.toNat)
+
+def hexKey (k : List Str) : String := if k.isEmpty then "_" else ".".intercalate (k.map hexStr)
+
+def showCOut : COut → String
+  | .hit v a => s!"H{v.gen}.{a}"
+  | .miss g c => s!"M{g}.{if c then 1 else 0}"
+  | .bad400 => "E400"
+
+def pcLabel : Pc → String
+  | .start => "start"
+  | .inval => "store.pop"
+  | .sGet => "store.get"
+  | .uGet _ => "uc.get"
+  | .uSetEv _ => "uc.set"
+  | .eWait _ _ => "ev.wait"
+  | .eRes _ _ => "ev.result?"
+  | .eRes2 _ => "ev.result?"
+  | .handler _ => "handler"
+  | .tPop _ => "store.pop"
+  | .pGet _ => "store.get"
+  | .pNew _ => "store.set"
+  | .pLen _ _ => "store.len"
+  | .pCur _ _ => "cur.get"
+  | .pSetdef _ _ _ => "exp.setdefault"
+  | .pApp _ _ _ _ => "bucket.append"
+  | .pUGet _ _ _ => "uc.get"
+  | .pUSet _ _ _ _ => "uc.set"
+  | .pERes _ _ _ _ => "ev.result="
+  | .pESet _ _ _ => "ev.set"
+  | .pCurW _ _ => "cur.set"
+  | .done o => showCOut o
+
+def xpLabel : XPc → String
+  | .idle => "sleep"
+  | .iter _ => "bucket.next"
+  | .sGet _ _ => "store.get"
+  | .uDel _ _ _ => "uc.del"
+  | .curR _ _ => "cur.get"
+  | .curW _ _ => "cur.set"
+  | .xDel _ => "exp.del"
+
+def showSlot : List Str × CSlot → String
+  | (k, .ev e) => s!"{hexKey k}=E{e}"
+  | (k, .val v) => s!"{hexKey k}=V{v.gen}"
+
+def idx {α : Type} (l : List α) : List (Nat × α) := (List.range l.length).zip l
+
+/-- canonical snapshot of the whole shared state: dict contents sorted by the harness, here in
+    model order (the harness sorts both sides) -/
+def snap (s : St) : String :=
+  let st := ",".intercalate (s.store.map fun p => s!"{hexStr p.1}>{p.2}")
+  let uc := ";".intercalate ((idx s.ucs).map fun p => s!"{p.1}:" ++ ",".intercalate (p.2.slots.map showSlot))
+  let ev := ",".intercalate ((idx s.evs).map fun p =>
+    s!"{p.1}:{match p.2.result with | some v => toString v.gen | none => "-"}:{if p.2.isSet then 1 else 0}")
+  let ex := ",".intercalate (s.exps.map fun p => s!"{p.1}>{p.2}")
+  let bk := ";".intercalate ((idx s.buckets).map fun p => s!"{p.1}:" ++
+    "+".intercalate (p.2.map fun e => s!"{e.size}/{hexStr e.uri}/{hexKey e.key}"))
+  let th := ",".intercalate (s.thr.map fun t => pcLabel t.pc)
+  s!"st[{st}]uc[{uc}]ev[{ev}]ex[{ex}]bk[{bk}]cur={s.cursize};th[{th}]xp={xpLabel s.xp}"
+
+def parseCCfg (s : String) : Option CCfg :=
+  match s.splitOn ":" with
+  | ["K", d, mo, mos, ms, w] => do
+    pure { base := { delay := ← d.toNat?, maxobjects := ← mo.toNat?, maxobjSize := ← mos.toNat?, maxsize := ← ms.toNat? },
+           waits := w == "1" }
+  | _ => none
+
+def parseAct (s : String) : Option Act :=
+  if s == "x" then some .xp
+  else if s.startsWith "T" then (s.drop 1).toString.toNat?.map .tick
+  else if s.startsWith "t" then (s.drop 1).toString.toNat?.map fun j => .thr j false
+  else if s.startsWith "w" then (s.drop 1).toString.toNat?.map fun j => .thr j true
+  else if s.startsWith "N:" then
+    match parseOp ("R:" ++ (s.drop 2).toString) with
+    | some (.req r p) => some (.spawn r p)
+    | _ => none
+  else none
+
+def runSnaps (cfg : CCfg) : St → List Act → List String → List String
+  | _, [], acc => acc.reverse
+  | s, a :: as, acc => runSnaps cfg (CacheConc.step cfg s a) as (snap (CacheConc.step cfg s a) :: acc)
+
+/-- the sequential history on the interleaving model, rendered like the sequential model's line -/
+def seqLine (cfg : Cfg) (ops : List Op) : String :=
+  let c : CCfg := { base := cfg, waits := false }
+  let rec go (s : St) : List Op → List String → St × List String
+    | [], acc => (s, acc.reverse)
+    | op :: ops, acc =>
+      let s' := seqStep c s op
+      match op with
+      | .req _ _ => go s' ops ((match s'.thr.getLast? with | some t => pcLabel t.pc | none => "?") :: acc)
+      | _ => go s' ops ("-" :: acc)
+  let (s, outs) := go {} ops []
+  " ".intercalate outs ++ s!" |cur={s.cursize} vals={CacheConc.countVals s} uris={s.store.length}"
+
+end conc
+
 def step (line : String) : String :=
   match Proto.fields line with
   | [] => "bad-op"
   | c :: rest =>
+    if c.startsWith "K:" then
+      match parseCCfg c, rest.mapM parseAct with
+      | some cfg, some acts => " ".intercalate (runSnaps cfg {} acts [])
+      | _, _ => "bad-op"
+    else
     match parseCfg c, rest.mapM parseOp with
     | some cfg, some ops =>
       let (w, outs) := runAll cfg {} ops []
-      " ".intercalate outs ++ s!" |cur={w.cache.cursize} vals={countVals w.cache.store} uris={w.cache.store.length}"
+      let l := " ".intercalate outs ++ s!" |cur={w.cache.cursize} vals={countVals w.cache.store} uris={w.cache.store.length}"
+      let l2 := seqLine cfg ops
+      if l == l2 then l ++ " seq=ok" else l ++ " seq=DIFF:" ++ l2.replace " " "_"
     | _, _ => "bad-op"
 
 end Drv.C15
